@@ -94,7 +94,8 @@ struct C20 : Property {
       else f = "ct=" + std::to_string(r.below(60));
       filters.push_back(f);
     }
-    p["config"] = {{"szx", r.range(0, 6)}};
+    static const int gaps[] = {0, 20, 500, 3000, 120000};
+    p["config"] = {{"szx", r.range(0, 6)}, {"gap_ms", gaps[r.below(5)]}};   // pause between one GET's conclusion and the next GET (libcoap caches a served body for some seconds)
     p["table"] = table;
     p["ops"] = filters;
     json faults = json::array();
@@ -221,7 +222,16 @@ struct C20 : Property {
           if (coap_send(sess, p) != COAP_INVALID_MID && listing_ok) fetched.push_back(Fetch{tok, full, filt});
         }
       }
-      w.run_for_ms(120 * 1000);
+      {
+        // until this GET has concluded (at most 120 s), then the plan's pause: with a short pause the server still holds the
+        // body it served for the previous query when the next query arrives on the same session
+        Bytes tk = {0xC2, 0x00, (uint8_t)fi, 0x5A};
+        uint64_t limit = w.now() + 120ull * 1000 * 1000000ull;
+        while (!cw.codes.count(tk) && w.now() < limit && !w.aborted) w.run_for_ms(50);
+        int gap = plan["config"].value("gap_ms", 120000);
+        if (gap) w.run_for_ms((uint64_t)gap);
+        if (gap < 8000) w.count("probe.next_get_within_cache_lifetime");
+      }
       {
         World::AsNode as(1);
         if (q) coap_delete_string(q);
